@@ -55,6 +55,8 @@ impl NetCfg {
     }
 }
 
+static NOT_RECEIVED: std::sync::atomic::AtomicUsize = std::sync::atomic::AtomicUsize::new(0);
+
 pub struct Rig {
     pub rt: tokio::runtime::Runtime,
     pub bus: Bus,
@@ -154,8 +156,14 @@ impl Rig {
         let tx = self.sig_tx.clone();
         let r = &mut self.recv;
         let res = guarded(std::panic::AssertUnwindSafe(|| {
-            self.rt.block_on(async { tokio::time::timeout(std::time::Duration::from_millis(500), r.recv(tx)).await.is_ok() })
+            // a frame that never arrives costs a time-out: after 40 of them in one run the point is made and the wait is cut
+            // short (a mutant that drops every frame would otherwise cost hours)
+            let ms = if NOT_RECEIVED.load(std::sync::atomic::Ordering::Relaxed) > 40 { 15 } else { 500 };
+            self.rt.block_on(async { tokio::time::timeout(std::time::Duration::from_millis(ms), r.recv(tx)).await.is_ok() })
         }));
+        if res == Some(false) {
+            NOT_RECEIVED.fetch_add(1, std::sync::atomic::Ordering::Relaxed);
+        }
         match res {
             None => Some("PANIC".into()),
             Some(false) => None,
